@@ -2,7 +2,11 @@
    mosaik/scheduler.py by harness/py2coq_sched.py) are stated.  Hand-written prelude; what is trusted here:
    - next_steps is a heapq heap, so next_steps[0] is its smallest element (heap0 = tmin) and the heap is falsy iff empty;
    - min(list) of TieredTime objects / ints is the least element (tmin / Z.min); the list given to min always ends in a
-     fixed last element, so it is never empty. *)
+     fixed last element, so it is never empty;
+   - `>` and `>=` on TieredTime are the functools.total_ordering derivations from __lt__ and __eq__ (tgt, tge);
+   - a simulator's Progress object is seen as its current value; awaiting asyncio.gather of the futures returns when every awaited
+     has_passed / has_reached coroutine has finished, and such a coroutine finishes as soon as _triggered_time is not None
+     (asyncio and the wake-ups of Progress.set are not modelled here; their liveness is checked by the quiescence test). *)
 From Coq Require Import ZArith List Bool Arith.
 Import ListNotations.
 From MV Require Import Time.Spec.
@@ -12,3 +16,6 @@ Record simview := mkSV { sv_next_steps : list time; sv_current_step : option tim
 Definition heap0 (l : list time) : option time := tmin l.
 Definition tmin_ne (l : list time) (d : time) : time := match tmin (l ++ [d]) with Some m => m | None => d end.
 Definition zmin_ne (l : list Z) (d : Z) : Z := fold_left Z.min l d.
+Definition tgt (a b : time) : bool := negb (tlt a b) && negb (teq a b).     (* total_ordering: a > b  =  not (a < b) and a != b *)
+Definition tge (a b : time) : bool := negb (tlt a b).                       (* total_ordering: a >= b  =  not (a < b) *)
+Definition zero_interval (n : nat) : interval := mkI n n (repeat 0 n).      (* TieredInterval of n zeros: cutoff and pre_length default to n *)
